@@ -90,10 +90,14 @@ theorem merge_noClash (cv : Conv V) (r : Ref) (l t : Sec V) (hwf : wfSec cv t = 
     merge cv false r l t =
       (.mk { l.attrs with definition := fillText l.attrs.definition t.attrs.definition
                           reference := fillText l.attrs.reference t.attrs.reference
-                          filledDef := recFill l.attrs.definition t.attrs.definition l.attrs.filledDef
-                          filledRef := recFill l.attrs.reference t.attrs.reference l.attrs.filledRef
-                          merged := some r }
-           (l.props ++ t.props) (l.secs ++ clones r t.secs), .ok) := by
+                          filledDef := (r.eff l.attrs).pick
+                            (recFill l.attrs.definition t.attrs.definition l.attrs.filledDef)
+                            l.attrs.filledDef
+                          filledRef := (r.eff l.attrs).pick
+                            (recFill l.attrs.reference t.attrs.reference l.attrs.filledRef)
+                            l.attrs.filledRef
+                          merged := (r.eff l.attrs).pick (some r) l.attrs.merged }
+           (l.props ++ t.props) (l.secs ++ clones (r.eff l.attrs) t.secs), .ok) := by
   rw [noClash_iff] at hnc
   cases t with
   | mk ta tp ts =>
@@ -108,7 +112,7 @@ theorem merge_noClash (cv : Conv V) (r : Ref) (l t : Sec V) (hwf : wfSec cv t = 
     unfold merge
     rw [hck]
     simp only [hcl, Bool.false_eq_true, if_false,
-               mergeSecs_disjoint cv false r ts l.secs hwf.2.2 hnc.1,
+               mergeSecs_disjoint cv false (r.eff l.attrs) ts l.secs hwf.2.2 hnc.1,
                mergeProps_disjoint cv false tp l.props hwf.1 hnc.2]
 
 /-! ## A copy equals its original (`BaseObject.__eq__`) -/
